@@ -13,6 +13,10 @@ INJECT = {"cmd/guardiand": [(os.path.join(vlib.HARNESS, "common", "vh.go"), "gua
                             (os.path.join(vlib.HARNESS, "guardiand", "reobs_harness.go"), "guardiand"),
                             (os.path.join(vlib.HARNESS, "guardiand", "gov_harness.go"), "guardiand")]}
 
+PKG_PROC = "./pkg/processor"
+INJECT_PROC = {"pkg/processor": [(os.path.join(vlib.HARNESS, "common", "vh.go"), "processor"),
+                                 (os.path.join(vlib.HARNESS, "guardiand", "cleanup_post_harness.go"), "processor")]}
+
 W, P = 660, 420          # seconds: suppression window, purge period (Trace_Reobserve.cfg)
 SENTINEL_CHAIN = 65535   # reserved by the harness for its rendezvous requests
 
@@ -250,6 +254,47 @@ class ReobsGen:
             steps.append(self.req(c, tx))
         return {"cfg": {"caps": {"2": 2, "4": 2}, "fill": {}, "outcap": 1, "unit": 1}, "steps": steps, "src": "gen-sweep"}
 
+    def burst(self, n, variant):
+        """A long burst: n DISTINCT (chain, tx) requests inside one suppression window, all forwarded (the harness keeps
+        draining the watcher queues, or the queues are large), followed by repeats of early, middle and late ones before the
+        window lapses (must all be suppressed) and after it has lapsed for certain (must all be forwarded again)."""
+        r = self.r
+        chains = ["2", "4"]
+        drained = variant % 2 == 0
+        cap = 64 if drained else n + 64
+        txs = [(chains[j % 2] if variant % 3 else "2", "%064x" % (0xb0000000 + j * 7919 + variant)) for j in range(n)]
+        steps = []
+        phi = r.choice([0, 1, 100, 419])
+        if phi:
+            steps.append(self.adv(phi))
+        elapsed = 0
+        inq = {"2": 0, "4": 0}
+        for j, (c, tx) in enumerate(txs):
+            steps.append(self.req(c, tx))
+            inq[c] += 1
+            if drained and inq[c] >= cap - 4:
+                steps += [{"ev": "Drain", "a": {"c": c}}] * inq[c]
+                inq[c] = 0
+            if j % 400 == 399 and elapsed < 60:
+                steps.append(self.adv(5))
+                elapsed += 5
+        probe = [txs[0], txs[1], txs[n // 3], txs[n // 2], txs[n - 2], txs[n - 1]]
+
+        def ask():
+            for c in chains:
+                steps.extend([{"ev": "Drain", "a": {"c": c}}] * min(inq[c], 20))
+                inq[c] = max(0, inq[c] - 20)
+            for c, tx in probe:
+                steps.append(self.req(c, tx))
+        ask()                                                     # seconds after the burst
+        steps.append(self.adv(W - 1 - elapsed))
+        ask()                                                     # the first forwards are W - 1 old: still suppressed
+        steps.append(self.adv(W + P))
+        ask()                                                     # every forward of the burst is at least W + P old
+        for c, tx in probe[:2]:
+            steps.append(self.req(c, tx))                         # and remembered afresh
+        return {"cfg": {"caps": {"2": cap, "4": cap}, "fill": {}, "outcap": 1, "unit": 1}, "steps": steps, "src": "gen-burst-%d" % n}
+
     def fill(self):
         """Watcher queues and the outbound queue at every fill level; dropped requests asked again."""
         r = self.r
@@ -300,6 +345,8 @@ def reobs_gen_scenarios(seed_, n, profile):
     g = ReobsGen(rnd)
     if profile == "sweep":
         return [g.sweep(i, seed_) for i in range(n)]
+    if profile.startswith("burst"):
+        return [g.burst(int(profile[5:]), seed_ + i) for i in range(n)]
     return [getattr(g, profile)() for _ in range(n)]
 
 
@@ -319,6 +366,32 @@ def reobs_replay(work, scenarios, deadline_ms=10000, par=8):
     return vlib.read_ndjson(trp), wall
 
 
+def cleanup_scenarios(seed_, n):
+    """The processor's cleanup pass as a poster on the outbound request queue: every fill level of small queues, the real
+    capacity (50) full / one short / empty, 1..4 due entries, and a control where nothing is due yet."""
+    r = random.Random("cleanup-%d" % seed_)
+    res = []
+    grid = [(k, j) for k in (0, 1, 2, 3) for j in range(k + 1)] + [(50, 50), (50, 49), (50, 48), (50, 0), (50, 25)]
+    for i in range(n):
+        k, j = grid[i % len(grid)]
+        res.append({"outcap": k, "prefill": j, "entries": r.choice([1, 1, 2, 3, 4]), "age_s": r.choice([301, 360, 3600]) if i % 9 else 200})
+    return res
+
+
+def cleanup_replay(work, scenarios, first_id, deadline_ms=10000):
+    """Run the real handleCleanup against outbound queues of every fill level (package processor)."""
+    scp = os.path.join(work, "cleanup_scenarios.ndjson")
+    trp = os.path.join(work, "cleanup_trace.ndjson")
+    with open(scp, "w") as fh:
+        for i, s in enumerate(scenarios):
+            fh.write(json.dumps(dict(s, id=first_id + i)) + "\n")
+    rc, out, wall = vlib.go_test(work, "node", PKG_PROC, "TestVerifCleanupPost", INJECT_PROC,
+                                 env={"VERIF_SCENARIOS": scp, "VERIF_TRACE": trp, "VERIF_DEADLINE_MS": deadline_ms}, timeout=1500)
+    if "VERIF-REPLAYED" not in out:
+        _crash_or_broken("cleanup-post harness", rc, out)
+    return vlib.read_ndjson(trp), wall
+
+
 def reobs_validate(work, lines):
     sdir = _specdir(work)
     with open(os.path.join(sdir, "trace.ndjson"), "w") as fh:
@@ -335,11 +408,9 @@ def reobs_validate(work, lines):
     return vlib.tlc_prints(r["out"], "REJECT"), r
 
 
-def _tx_aliases(a, b):
-    """Two different ids that coincide under a crop / pad normalisation to 32 bytes (description only)."""
-    def norms(h):
-        return {("l", h[-64:].rjust(64, "0")), ("r", h[:64].ljust(64, "0")), ("s", h.lstrip("0")), ("t", h.rstrip("0"))}
-    return a != b and bool(norms(a) & norms(b))
+def _tx_norms(h):
+    """Crop / pad normalisations of an id to 32 bytes (description only): two different ids sharing one of them collide."""
+    return {("l", h[-64:].rjust(64, "0")), ("r", h[:64].ljust(64, "0")), ("s", h.lstrip("0")), ("t", h.rstrip("0"))}
 
 
 def reobs_annotate(lines):
@@ -350,7 +421,7 @@ def reobs_annotate(lines):
     for ln in lines:
         ev, a, s = ln["ev"], ln.get("a", {}), ln.get("s", {})
         if ev == "Reset":
-            st = {"now": 0, "caps": a["caps"], "lens": {c: len(a["fill"].get(c, [])) for c in a["caps"]}, "last": {}}
+            st = {"now": 0, "caps": a["caps"], "lens": {c: len(a["fill"].get(c, [])) for c in a["caps"]}, "last": {}, "norm": {}, "fwdt": [], "old": 0}
             continue
         if st is None:
             continue
@@ -369,19 +440,29 @@ def reobs_annotate(lines):
             grew = [k for k in s.get("lens", {}) if s["lens"][k] != st["lens"].get(k)]
             fwd = known and s.get("lens", {}).get(c) == ln0 + 1
             low = str(int(c) & 0xffff)
-            alias = any(cc == c and tt != tx and _tx_aliases(tt, tx) for (cc, tt) in st["last"])
+            alias = any(tt != tx for k in _tx_norms(tx) for tt in st["norm"].get((c, k), ()))
+            while st["old"] < len(st["fwdt"]) and st["now"] - st["fwdt"][st["old"]] >= W:
+                st["old"] += 1
+            live = len(st["fwdt"]) - st["old"]           # forwards younger than W: what a suppression cache must hold
             cls.update(known=known, wide=wide, fill=fillc, age=agec, fwd=bool(fwd), grew=grew, phase=(st["now"] % P == 0),
-                       to_low16=bool(wide and low in grew), alias=alias, txlen=len(tx) // 2)
+                       to_low16=bool(wide and low in grew), alias=alias, txlen=len(tx) // 2,
+                       live="le100" if live <= 100 else "le1000" if live <= 1000 else "gt1000")
             if fwd:
                 st["last"][(c, tx)] = st["now"]
+                st["fwdt"].append(st["now"])
+                for k in _tx_norms(tx):
+                    st["norm"].setdefault((c, k), set()).add(tx)
         elif ev == "Advance":
             cls.update(ticks=min(s.get("ticks", 0), 3), mode=a.get("mode"),
                        coalesced=s.get("ticks", 0) > s.get("clock_reads", 0) > 0, long=a.get("dt", 0) > W + P)
             st["now"] += a.get("dt", 0)
         elif ev == "Post":
-            cls.update(ok=a.get("ok"), api=a.get("api"), full=s.get("is_chan_full", False))
+            cls.update(ok=a.get("ok"), api=a.get("via") or a.get("api"), full=s.get("is_chan_full", False))
         elif ev in ("Stall", "Panic"):
             cls.update(during=a.get("during"))
+            if a.get("during") == "Post-cleanup":
+                cls["fill"] = ("full" if a.get("prefill", 0) >= a.get("outcap", 0) else
+                               "fills-up" if a.get("prefill", 0) + a.get("entries", 0) > a.get("outcap", 0) else "room")
             c = a.get("c")
             if c is not None:
                 cap = st["caps"].get(c)
@@ -407,9 +488,13 @@ def reobs_signature(rej, line, cls):
         who = "known" if cls.get("known") else "unknown"
         out = "forwarded" if cls.get("fwd") else ("misrouted" if cls.get("grew") else "dropped")
         sig = "Request/%s/age-%s/queue-%s/%s" % (who, cls.get("age"), cls.get("fill"), out)
+        if out == "forwarded" and cls.get("age") == "ltW" and cls.get("live") == "gt1000":
+            sig += "/more-than-1000-pairs-in-window"     # forgotten inside its window while a long burst was being remembered
         if out == "dropped" and cls.get("age") == "never" and cls.get("alias"):
             sig += "/tx-id-aliases-a-forwarded-one"      # a different id that collides with a remembered one after cropping / padding
         return sig
+    if ev == "Post" and line.get("a", {}).get("via") == "cleanup":
+        return "Post-cleanup/ok=%s/%s" % (line.get("a", {}).get("ok"), "post-state" if "post-state" in rej.get("why", "") else "not-allowed")
     if ev == "Post":
         return "Post/ok=%s/%s" % (line.get("a", {}).get("ok"), "post-state" if "post-state" in rej.get("why", "") else "not-allowed")
     return "%s/%s" % (ev, "post-state" if "post-state" in rej.get("why", "") else "not-allowed")
